@@ -69,9 +69,12 @@ def parseSniName (tok : String) : Option (Bytes × Option Bytes) :=
     | _, _ => none
   | _ => none
 
-/-- the name the provisioned sni matcher compares with.  MatchServerName does not convert its names
-    (caddyhttp's MatchHost does), so this is the name as written. -/
-def provisionedSniName (n : Bytes × Option Bytes) : Bytes := n.1
+/-- the name the provisioned sni matcher compares with: MatchServerName.Provision converts
+    internationalized names to their IDNA form (as caddyhttp's MatchHost does with its hosts) -/
+def provisionedSniName (n : Bytes × Option Bytes) : Bytes :=
+  match n.2 with
+  | some a => a
+  | none => n.1
 
 def parseSni (s : String) : Option (Option (List Bytes)) :=
   if s == "~" then some none
